@@ -127,8 +127,8 @@ def check_timelines(rec, prefix, G, M, ctx='', coverage=True):
                 rec.check(prefix + '.call', False, '%s interactions([n]) raised %r / %r' % (ctx, a, b))
                 allok = False
                 continue
-            ta = [d['t'] for x, y, d in a if M.key(x, y) == k]
-            tb = [d['t'] for x, y, d in b if M.key(x, y) == k]
+            ta = [d.get('t') if isinstance(d, dict) else d for x, y, d in a if M.key(x, y) == k]
+            tb = [d.get('t') if isinstance(d, dict) else d for x, y, d in b if M.key(x, y) == k]
             allok &= rec.check(prefix + '.symmetric', len(ta) == 1 and ta == tb,
                                lambda: '%s pair %r: timeline via %r = %r, via %r = %r' % (ctx, (u, v), u, ta, v, tb))
     return allok
